@@ -48,6 +48,11 @@ func build(c *ecase, text string) *profile.Profile {
 		{Locs: []vlib.ALoc{lg, lf}, Vals: []int64{3, 300}, Lab: []vlib.ASLab{{K: "key", V: []string{"val"}}}, Num: []vlib.ANLab{{K: "bytes", V: []int64{64}, U: []string{"bytes"}}}},
 		{Locs: []vlib.ALoc{lg2, lf}, Vals: []int64{1, 100}, Lab: []vlib.ASLab{{K: "key", V: []string{"other"}}}},
 		{Locs: []vlib.ALoc{lf}, Vals: []int64{2, 50}},
+		// a string label whose weights cancel while the numeric labels under it do not
+		{Locs: []vlib.ALoc{lf}, Vals: []int64{4, 40}, Lab: []vlib.ASLab{{K: "key", V: []string{"cancel"}}}, Num: []vlib.ANLab{{K: "bytes", V: []int64{64}, U: []string{"bytes"}}}},
+		{Locs: []vlib.ALoc{lf}, Vals: []int64{-4, -40}, Lab: []vlib.ASLab{{K: "key", V: []string{"cancel"}}}, Num: []vlib.ANLab{{K: "bytes", V: []int64{128}, U: []string{"bytes"}}}},
+		// a callee without a function name but with a file name, first mentioned as the callee of a heavier caller
+		{Locs: []vlib.ALoc{{Map: m, Rel: 11, Lines: []vlib.ALine{{Fn: vlib.AFn{Name: "", Sys: "", File: "e.c"}, Line: 30}}}, lf}, Vals: []int64{1, 7}},
 	}}
 	p := vlib.NewConc(0).Profile(ap)
 	p.Comments = []string{"a comment"}
